@@ -38,20 +38,23 @@ Proof. vm_compute. reflexivity. Qed.
    any number, starting from a parameter nothing is known about — leave the parameter with exactly the distinct types of
    their arguments, in order of first occurrence.  `dom` is any set of scalar argument types on which T.IsMatchType is
    equality of tag and class. *)
-Theorem C15_round_collects : forall bm r (dom : ty -> Prop),
+Theorem C15_round_collects : forall V bm r (dom : ty -> Prop),
   (forall a, dom a -> arg_ok a = true) -> (forall a b, dom a -> dom b -> is_match_type a b = same_kind a b) ->
   forall args, args <> [] -> Forall dom args ->
-  exists dt, round_run bm r None args = Some (dt, r) /\ map kind (variants_or_self dt) = map kind (distinct_kinds [] args).
+  exists dt, round_run V bm r None args = Some (dt, r) /\ map kind (variants_or_self dt) = map kind (distinct_kinds [] args).
 Proof. exact round_from_fresh. Qed.
 Print Assumptions C15_round_collects.
 
-(* ... but the first call site of a NEW round replaces what the previous round collected, and is then checked against
-   the old type: the four rounds reach the union of all call sites only if each round reaches every call site again.
-   This is where the kept findings C15-round-heuristic and C15-call-before-def come from. *)
+(* ... but the first call site of a NEW round replaces what the previous round collected: the four rounds reach the union
+   of all call sites only if each round reaches every call site again (the kept finding C15-call-before-def lives there).
+   The pinned code also CHECKED that call site against the type of the earlier round — a false `type mismatch` that ended the
+   walk over the remaining parameters, so that n parameters needed n+1 rounds (the former finding C15-round-heuristic);
+   the repaired code accepts it. *)
 Theorem C15_new_round_replaces :
   let I := set_inf (Ty INT "Integer" VInt64 None "" "" "" [] no_flags "" "" "" [] [] []) true in
   let S := Ty STRING "String" (VStr "s") None "" "" "" [] no_flags "" "" "" [] [] [] in
-  propagate false "check" (Some (I, "inference")) S = (false, Some (set_inf S true, "check")).
+  propagate pinned_prop false "check" (Some (I, "inference")) S = (false, Some (set_inf S true, "check")) /\
+  propagate fixed_prop false "check" (Some (I, "inference")) S = (true, Some (set_inf S true, "check")).
 Proof. exact new_round_replaces. Qed.
 Print Assumptions C15_new_round_replaces.
 
@@ -59,8 +62,8 @@ Print Assumptions C15_new_round_replaces.
    Round tag — the call sites of a round leave the parameter admitting the argument of every one of them: what a round
    replaces (the first call site of a new round; the two-variant heuristic) it replaces before it has recorded anything
    of this round.  This is the per-round form of "covers the union of the argument types at all call sites". *)
-Theorem C15_round_covers : forall bm r (dom : ty -> Prop), (forall a, dom a -> arg_ok a = true) ->
-  forall e args a, start_ok e -> Forall dom args -> In a args -> covered (round_run bm r e args) a.
+Theorem C15_round_covers : forall V bm r (dom : ty -> Prop), (forall a, dom a -> arg_ok a = true) ->
+  forall e args a, start_ok e -> Forall dom args -> In a args -> covered (round_run V bm r e args) a.
 Proof. exact round_covers. Qed.
 Print Assumptions C15_round_covers.
 
@@ -69,9 +72,9 @@ Example C15_round_covers_example :
   let S := Ty STRING "String" (VStr "s") None "" "" "" [] no_flags "" "" "" [] [] [] in
   let U := set_inf (MakeUnion [MakeUntyped; I]) true in
   start_ok (Some (U, "inference")) /\
-  option_map (fun e => (map t_cls (variants_or_self (fst e)), snd e)) (round_run false "check" (Some (U, "inference")) [I; S]) =
+  option_map (fun e => (map t_cls (variants_or_self (fst e)), snd e)) (round_run fixed_prop false "check" (Some (U, "inference")) [I; S]) =
     Some (["Integer"; "String"], "check") /\
-  option_map (fun e => (map t_cls (variants_or_self (fst e)), snd e)) (round_run false "check" (Some (U, "inference")) [S; I]) =
+  option_map (fun e => (map t_cls (variants_or_self (fst e)), snd e)) (round_run fixed_prop false "check" (Some (U, "inference")) [S; I]) =
     Some (["Untyped"; "Integer"; "String"], "inference").
 Proof. cbv zeta. split; [|split; vm_compute; reflexivity]. repeat split; try reflexivity. right. repeat split; cbn; lia. Qed.
 
@@ -81,7 +84,7 @@ Example C15_round_example :
   let K := Ty OBJECT "K" (VStr "K") None "" "" "" [] no_flags "" "" "" [] [] [] in
   let dom := fun a => In a [I; S; K] in
   (forall a, dom a -> arg_ok a = true) /\ (forall a b, dom a -> dom b -> is_match_type a b = same_kind a b) /\
-  option_map (fun e => map t_cls (variants_or_self (fst e))) (round_run false "check" None [I; S; I; K; S]) = Some ["Integer"; "String"; "K"].
+  option_map (fun e => map t_cls (variants_or_self (fst e))) (round_run fixed_prop false "check" None [I; S; I; K; S]) = Some ["Integer"; "String"; "K"].
 Proof.
   cbv zeta. split; [|split].
   - intros a [<-|[<-|[<-|[]]]]; reflexivity.
